@@ -347,6 +347,11 @@ def oracle(c):
         tree = Parser(Scanner(s).scan()).parse()
     except Exception:
         return None  # not a formula at all (C01's business)
+    # the specification is applied to the tree the DOCUMENTED grammar gives the text (left-associative levels
+    # | < comparisons < + - < * / < : < **); a tree that groups the operators otherwise is already a failure
+    from props import C01 as _C01
+    if not _C01._expr_ok(tree):
+        return f"{s!r}: the operators are not grouped by the documented precedence and left associativity"
     try:
         resp, common, group = spec_of(tree)
     except Undefined:
